@@ -274,7 +274,6 @@ class Arm(Robot):
                 self.screw_list, self._end_effector_home.gTM(),
                 goal_position.gTM(), theta_init,
                 self.rot_tolerance, self.pos_tolerance, max_iters=max_iters)
-        theta = fsr.angleMod(theta)
         if not success:
             if check:
                 i = 0
@@ -287,6 +286,16 @@ class Arm(Robot):
                             goal_position.gTM(), theta_init,
                             self.rot_tolerance, self.pos_tolerance, max_iters=max_iters)
                     i = i + 1
+        if success:
+            wrapped = fsr.angleMod(np.copy(theta))
+            if not np.array_equal(wrapped, theta):
+                # A solution found at joint values of 1e10 rad loses more than the tolerance when
+                # it is wrapped into one turn (1e-16 * 1e10): the tolerances have to hold for the
+                # vector that is returned, so re-converge from the wrapped one
+                theta, success = fmr.IKinSpace(
+                        self.screw_list, self._end_effector_home.gTM(),
+                        goal_position.gTM(), wrapped,
+                        self.rot_tolerance, self.pos_tolerance, max_iters=max_iters)
         # The published pose is the pose of the stored joint vector, reached or not
         self.FK(theta, protect = True)
         return theta, success
